@@ -141,6 +141,11 @@ pub fn c02_on(ctx: &mut Ctx, cfg: &ReqCfg, api: u8, suppressed: &[&str], depth: 
         }
         let ui = units.iter().position(|e| *e > pos).unwrap();
         let next_len = units[ui] - pos;
+        // The last header line and the empty line that ends the head may be emitted as one unit
+        // (what this crate does) or as two lines: the statement allows both ("only whole lines",
+        // "then one empty line"). `next_line` is the shortest thing that can be emitted next.
+        let split_pt = w.len() - 2;
+        let next_line = if units[ui] == w.len() && pos < split_pt { split_pt - pos } else { next_len };
         let out_len = match mode {
             0 => 65_536,
             1 => (next_len + ctx.range(0, 2)).saturating_sub(1),
@@ -176,7 +181,13 @@ pub fn c02_on(ctx: &mut Ctx, cfg: &ReqCfg, api: u8, suppressed: &[&str], depth: 
         let r = tx.write(ctx, offered, &mut big[..out_len]);
         ctx.ev(|| format!("write(out={}) at head offset {} (next line {} bytes) -> {:?}", out_len, pos, next_len, r.as_ref().map_err(err_name)));
         ctx.sig3((out_len < next_len) as u64 * 4 + (out_len == next_len) as u64 * 2 + (out_len == next_len + 1) as u64, ui.min(5) as u64, r.is_ok() as u64);
-        if out_len < next_len {
+        let ambiguous = out_len >= next_line && out_len < next_len;
+        if ambiguous && matches!(r, Err(Error::OutputOverflow)) {
+            // the last header line fits, the empty line after it does not: overflow is this
+            // crate's answer (one unit), emitting the header line alone would be another
+            overflows += 1;
+            ctx.count("f:backpressure");
+        } else if out_len < next_line {
             overflows += 1;
             ctx.count("f:backpressure");
             match r {
@@ -197,7 +208,7 @@ pub fn c02_on(ctx: &mut Ctx, cfg: &ReqCfg, api: u8, suppressed: &[&str], depth: 
                 fail!("C02.schedule_dependent_bytes", "", "sliced head differs from the one-shot head at offset {}: {:?} vs {:?}", pos, show_bytes(&big[..n]), show_bytes(&w[pos..pos + n]));
             }
             pos += n;
-            if !units.contains(&pos) {
+            if !units.contains(&pos) && pos != split_pt {
                 fail!("C02.partial_line", "", "a write ended inside a line (head offset {} is not a line end)", pos);
             }
         }
